@@ -171,7 +171,8 @@ def hx(b):
 
 def run_model(m, scn, formatted, plan=()):
     """formatted: bytes or None (formatting fails)."""
-    pl = "none" if not plan else ";".join("%d:%s" % (k, a) for k, a in plan)
+    # a transient device-full condition ('glitch') is, for the model, a failed write like any other: the stream's error flag is sticky
+    pl = "none" if not plan else ";".join("%d:%s" % (k, a.replace("glitch=", "full=")) for k, a in plan)
     line = "fsproto %s %s %s %s %s %s %s %s" % (scn.bits(), hx(scn.orig), "FAIL" if formatted is None else hx(formatted),
                                                hx(scn.backup), hx(scn.md5_of), hx(scn.out), hx(scn.tmp), pl)
     ans = m.ask(line)
